@@ -526,10 +526,10 @@ func (x *Exec) composite(st *State, e *ast.CompositeLit) Value {
 				name := kv.Key.(*ast.Ident).Name
 				idx := si.fieldIndex(name)
 				v := x.exprOrLit(st, kv.Value, si.FTypes[idx])
-				vals[idx] = x.convertTo(st, v, si.FTypes[idx], kv.Pos()).T
+				vals[idx] = x.fieldTerm(st, v, si.FTypes[idx], kv.Pos())
 			} else {
 				v := x.exprOrLit(st, el, si.FTypes[i])
-				vals[i] = x.convertTo(st, v, si.FTypes[i], el.Pos()).T
+				vals[i] = x.fieldTerm(st, v, si.FTypes[i], el.Pos())
 			}
 		}
 		return Value{T: x.vc.mkStruct(t, vals), Ty: t}
@@ -567,6 +567,18 @@ func (x *Exec) composite(st *State, e *ast.CompositeLit) Value {
 	}
 	x.unsup(e.Pos(), "composite literal of %s", t)
 	return Value{}
+}
+
+// fieldTerm: the term stored in a struct field; a closure stored in a
+// func-typed field is an opaque non-nil reference (it can be passed around and
+// compared with nil; calling it is outside the subset).
+func (x *Exec) fieldTerm(st *State, v Value, ft types.Type, pos token.Pos) Term {
+	if v.Fn != nil {
+		r := x.vc.allocRef(st)
+		st.assume(tNot(tEq(r, mathInt(0))))
+		return r
+	}
+	return x.convertTo(st, v, ft, pos).T
 }
 
 // exprOrLit evaluates an element of a composite literal; elided inner
